@@ -48,6 +48,11 @@ def strategy(tier):
             c["out_mode"] = draw(st.sampled_from(["none", "file", "existing-file", "dir"]))
             c["version"] = draw(st.sampled_from(["1", "2", "3"]))
         if cmd == "rename":
+            if draw(st.sampled_from([True, False, False])):
+                # names that are also shell patterns / differ only in case from something: "exists" must mean this exact name
+                t = dict(t)
+                t["name"] = draw(st.sampled_from(["Title [2020]", "x[1]", "a*b", "what?", "[abc]"]))
+                c["tree"] = t
             c["occupied"] = draw(st.booleans())
             c["occupant"] = draw(st.sampled_from(["junk", "identical-copy", "same-info-other-trackers"]))
             c["mf_name"] = draw(st.sampled_from(["m.torrent", "weird name.torrent", "x"]))
